@@ -26,6 +26,8 @@ def norm_value(v):
         return None
     v = dict(v)
     t = v["t"]
+    if t == "PyNone":
+        return None            # a Value cell holding Python None is "no value", like pd.NA
     if t in ("String", "Guid"):
         s = v["v"]
         s = None if s is None else s.strip()
